@@ -1038,7 +1038,7 @@ def run(ctx):
                 "a[s:e:t,...] with run-time Py_ssize_t bounds (incl. wraparound/boundscheck=False variants, contiguous-typed views), ct = generated "
                 "functions with constant index expressions; 1-D: EVERY start/stop in [-2n-2,2n+2] U {None, 2^63-1, -2^63} x steps {-3..3, None} "
                 "(0 -> ValueError) for n=0..6 on rt and dyn; 2-D/3-D: seeded combinations of indices (in and out of range), slices, one Ellipsis, "
-                "None (ct), plus slices of slices, plain memoryview objects and a PIL-style indirect 2-D buffer; classes with a documented deviation (too many indices, several Ellipsis, ints beyond ssize_t, None "
+                "None (ct), chained subscripts a[x][y](, [z]) in one compiled expression (the compile-time merge view[x][y] => view[x, y] must preserve sequential application), plus slices of slices, plain memoryview objects and a PIL-style indirect 2-D buffer; classes with a documented deviation (too many indices, several Ellipsis, ints beyond ssize_t, None "
                 "at run time) are generated separately. non-trivial = oracle result is an element or a non-empty view; distinct by (path, array spec, index)")
     ctx.explanation = ("Theorems cover, for ALL extents/strides/start/stop/step (unbounded integers): the per-dimension slice arithmetic of "
                        "slice_memviewslice (= PySlice_AdjustIndices; full strength only for the repaired variant, _partial + counterexamples for the code "
@@ -1061,7 +1061,7 @@ def run(ctx):
     # ---- build: one rt/dyn module, several ct modules
     rt_src = RT_MODULE + "\n" + dyn_source()
     bfns = boundary_ct_functions()
-    nmods = ctx.n(5, 24)
+    nmods = ctx.n(4, 24)
     per = ctx.n(70, 140)
     ct_mods = [bfns]
     fid = 0
@@ -1075,13 +1075,28 @@ def run(ctx):
                      "wrap": m["directives"][0], "bounds": m["directives"][1], "contig": "::1" in m["ty"], "shape0": None}]]
     elif rp is not None:
         ct_mods = []
+    # chained subscripts a[x][y](, [z]) in one expression (merged_indices may or may not merge them)
+    chain_mods = [boundary_chain_functions()]
+    gid = 0
+    for m in range(ctx.n(2, 8)):
+        chain_mods.append(gen_chain_functions(ctx, ctx.n(50, 100), gid))
+        gid += ctx.n(50, 100)
+    if rp is not None and rp.get("path") == "chain":
+        m = rp["meta"]
+        chain_mods = [[{"name": m["fn"], "ty": m["ty"], "nd": len(rp["spec"][0]), "subs": [[tuple(i) for i in x] for x in rp["subs"]],
+                        "contig": "::1" in m["ty"], "shape0": None, "wrap": 1, "bounds": 1}]]
+    elif rp is not None:
+        chain_mods = []
     specs = [{"name": "c16rt", "source": rt_src}]
     for k, fns in enumerate(ct_mods):
         specs.append({"name": "c16ct%d" % k, "source": CT_HEAD + "\n" + "\n".join(ct_function(f["name"], f["ty"], f["items"], f["wrap"], f["bounds"]) for f in fns)})
+    chain_specs = [{"name": "c16ch%d" % k, "source": CT_HEAD + "\n" + "\n".join(chain_function(f["name"], f["ty"], f["subs"]) for f in fns)}
+                   for k, fns in enumerate(chain_mods)]
     wit_specs = crash_witness_specs()
-    built_all = cybuild.build_many(ctx, specs + [{"name": w["modname"], "source": w["source"]} for w in wit_specs])
+    built_all = cybuild.build_many(ctx, specs + chain_specs + [{"name": w["modname"], "source": w["source"]} for w in wit_specs])
     built = built_all[:len(specs)]
-    wit_built = built_all[len(specs):]
+    chain_built = built_all[len(specs):len(specs) + len(chain_specs)]
+    wit_built = built_all[len(specs) + len(chain_specs):]
     tm["build"] = round(time.time() - t0, 1); t0 = time.time()
     if isinstance(built[0], cybuild.BuildError):
         ctx.tie_break("D-c build of the rt/dyn harness module", built[0].stage + ": " + built[0].log[-600:], {"module": "c16rt"})
@@ -1093,6 +1108,9 @@ def run(ctx):
     ctx.notes["theorems_applicable"] = ("full-strength (slice_dim_fixed, memview_slice_fixed, getitem_fixed_*, buffer_slice_code_fixed)" if r.variant.startswith("fix") else
                                         "partial (…_current_partial) + counterexamples; full statement is false for this code")
 
+    if rp is not None and rp.get("path") == "chain":
+        run_chain_modules(ctx, r, chain_mods, chain_built, chain_specs, [(tuple(rp["spec"][0]), rp["spec"][1])])
+        return
     if rp is not None:
         replay(ctx, r, rp, built)
         return
@@ -1232,6 +1250,9 @@ def run(ctx):
         run_ct_module(ctx, r, so, fns, ctx.n(3, 5))
     # ---- E. `a[..., i]` with every dimension indexed (0-d result): the compiler crashes at the pinned commit
     tm["D-const"] = round(time.time() - t0, 1); t0 = time.time()
+    # ---- G. chained subscripts
+    run_chain_modules(ctx, r, chain_mods, chain_built, chain_specs, None)
+    tm["G-chain"] = round(time.time() - t0, 1); t0 = time.time()
     # ---- F. indirect (suboffset >= 0) dimension: the suboffset_dim bookkeeping of slice_memviewslice
     run_indirect(ctx, r)
     tm["F-indirect"] = round(time.time() - t0, 1); t0 = time.time()
@@ -1546,3 +1567,238 @@ def run_indirect_groups(ctx, r, groups):
                 ctx.violation(key, what + ": got %s, NumPy on the same contents %s" % (short(impl), short(oracle)), replay)
             if not ok_model:
                 ctx.tie_break("D-c indirect rt vs CyVerif.C16 (%s)" % r.variant, what + ": model %s impl %s" % (short(model), short(impl)), replay)
+
+
+# ----------------------------------------------------------------------------------------------
+# chained subscripts in one expression: a[x][y], a[x][y][z].  The compiler may rewrite view[x][y] => view[x, y]
+# (MemoryViewSliceNode.merged_indices) -- an optimisation that must preserve the meaning "apply x, then y to the result".
+# Model = the Lean `ct` op applied sequentially; oracle = NumPy applying the subscripts one after the other.
+
+
+def chain_function(name, ty, subs):
+    return "def %s(%s a):\n    return a%s\n" % (name, ty, "".join("[%s]" % (pyx_expr(x) if x else ":") for x in subs))
+
+
+def static_ndim(nd, items):
+    """number of dimensions of a[items] for an nd-dimensional a (items well-formed)"""
+    return nd - sum(1 for it in items if it[0] == 'i') + sum(1 for it in items if it[0] == 'N')
+
+
+def stage_shape(shape, items):
+    """shape of the intermediate view (NumPy on zeros); an out-of-range index keeps the dimensionality with extents 3"""
+    try:
+        return tuple(np.zeros(shape, dtype=np.intc)[index_obj('T', items)].shape)
+    except Exception:
+        return tuple(3 for _ in range(static_ndim(len(shape), items)))
+
+
+def gen_chain_functions(ctx, count, start_id=0):
+    rng = ctx.rng
+    fns = []
+    while len(fns) < count:
+        nd = rng.choice((1, 1, 2, 2, 3))
+        shape = tuple(rng.randint(0, 6) for _ in range(nd))
+        nsub = 3 if rng.random() < 0.25 else 2
+        subs, cur, ok = [], shape, True
+        for j in range(nsub):
+            items = None
+            for _try in range(30):
+                cand = chain_items(rng, cur)
+                if j < nsub - 1 and static_ndim(len(cur), cand) < 1:
+                    continue            # an intermediate result must still be a view
+                if static_ndim(len(cur), cand) > 5:
+                    continue            # BUF_MAX_NDIMS is 8
+                items = cand
+                break
+            if items is None:
+                ok = False
+                break
+            subs.append(items)
+            cur = stage_shape(cur, items)
+        if not ok:
+            continue
+        contiguous = rng.random() < 0.2
+        fns.append({"name": "g%d" % (start_id + len(fns)), "ty": CT_TYPES[nd][1 if contiguous else 0], "nd": nd, "subs": subs,
+                    "contig": contiguous, "shape0": shape, "wrap": 1, "bounds": 1})
+    return fns
+
+
+def chain_items(rng, shape):
+    """one subscript for a view of this shape: ints (mostly in range), full and partial slices, None, one Ellipsis"""
+    nd = len(shape)
+    k = rng.randint(0, nd)
+    use_ell = rng.random() < 0.25
+    pos = rng.randint(0, k) if use_ell else None
+    pre = k if pos is None else pos
+    dims_for = list(range(pre)) + list(range(nd - (k - pre), nd))
+    items = []
+    for j in range(k):
+        n = shape[dims_for[j]]
+        r_ = rng.random()
+        if r_ < 0.35:
+            items.append(rand_index(rng, n, out_of_range=0.06))
+        elif r_ < 0.65:
+            items.append(('s', None, None, None))
+        else:
+            items.append(rand_slice(rng, n, huge=False, zero=0.0))
+    if use_ell:
+        items.insert(pos, ('E',))
+    for _ in range(rng.choice((0, 0, 1, 1, 2))):
+        items.insert(rng.randint(0, len(items)), ('N',))
+    if not items:
+        items = [('s', None, None, None)]
+    if zero_dim_ellipsis(items, nd):
+        items = [it for it in items if it[0] != 'E']
+    return items
+
+
+def boundary_chain_functions():
+    L = []
+    F = ('s', None, None, None)
+
+    def add(ty, *subs):
+        L.append({"name": "h%d" % len(L), "ty": ty, "nd": ty.count(",") + 1, "subs": [list(x) for x in subs], "contig": "::1" in ty,
+                  "shape0": None, "wrap": 1, "bounds": 1})
+    I = lambda i: ('i', i)
+    N, E = ('N',), ('E',)
+    for ty in ("int[:]", "int[::1]"):
+        add(ty, [N], [I(0)]); add(ty, [N], [I(1)]); add(ty, [N], [I(-1)]); add(ty, [N], [I(0), I(1)]); add(ty, [N], [F, I(2)])
+        add(ty, [F, N], [I(1)]); add(ty, [F], [I(1)]); add(ty, [_S(1, None, None)], [I(0)]); add(ty, [_S(None, None, -1)], [_S(1, None, None)], [I(0)])
+        add(ty, [N, N], [I(0)]); add(ty, [N, N], [I(0), I(0)]); add(ty, [N], [N], [I(0)]); add(ty, [E, N], [I(1)]); add(ty, [N, E], [I(0)])
+        add(ty, [_S(None, None, 2)], [_S(None, None, 2)]); add(ty, [N], [_S(None, None, None), _S(1, None, 2)])
+    for ty in ("int[:, :]", "int[:, ::1]"):
+        add(ty, [I(1)], [I(2)]); add(ty, [F, I(1)], [I(0)]); add(ty, [I(1)], [_S(1, 3, None)]); add(ty, [_S(1, None, None)], [I(0)])
+        add(ty, [N], [I(0), I(1)]); add(ty, [N], [I(0)]); add(ty, [N], [I(1)]); add(ty, [I(0), N], [I(0)]); add(ty, [I(0), N], [I(1)])
+        add(ty, [F, N], [I(1)]); add(ty, [F, N], [I(1), I(0)]); add(ty, [N, F], [I(0), I(1)]); add(ty, [N, F, F], [I(0), I(1), I(2)])
+        add(ty, [E], [I(1)]); add(ty, [E, I(0)], [I(1)]); add(ty, [F, F], [I(1), I(2)]); add(ty, [F, F], [I(1)], [I(2)])
+        add(ty, [F, _S(None, None, -1)], [I(1)]); add(ty, [_S(None, None, -1), F], [I(1)]); add(ty, [N, I(1)], [I(0)]); add(ty, [N, I(1)], [F, I(2)])
+    for ty in ("int[:, :, :]",):
+        add(ty, [I(1)], [I(1)], [I(1)]); add(ty, [I(1), N], [I(0)]); add(ty, [I(1), N], [I(0), I(1)]); add(ty, [F, N, I(0)], [I(1)])
+        add(ty, [N, I(1)], [I(0), I(2)]); add(ty, [F, I(1)], [I(0), I(1)]); add(ty, [E, I(1)], [I(1)]); add(ty, [I(0), E], [N], [I(0), I(1)])
+        add(ty, [F, F, I(2)], [I(1)]); add(ty, [N, E, N], [I(0), I(1)])
+        add(ty, [F, F, F], [E, I(0)]); add(ty, [F, F, F], [I(1), E, I(0)]); add(ty, [F, F, F], [N, I(1)]); add(ty, [I(1)], [E, I(0)])
+    return L
+
+
+def chain_classes(variant, shape, subs):
+    cur = shape
+    for items in subs:
+        cls = case_class(variant, 'ct', cur, 'T', items)
+        if cls:
+            return cls
+        cur = stage_shape(cur, items)
+    if any(it[0] in 'NE' for items in subs[1:] for it in items):
+        # known finding: merged_indices() substitutes a None / Ellipsis of a later subscript into a full-slice slot
+        return "ct-chain-merge-later-newaxis-or-ellipsis"
+    return None
+
+
+def numpy_chain(a, subs):
+    cur = a
+    try:
+        for items in subs:
+            if not isinstance(cur, np.ndarray):
+                return ('err', 'IndexError')
+            cur = cur[index_obj('T', items)]
+    except Exception as e:
+        return ('err', type(e).__name__)
+    if isinstance(cur, np.ndarray):
+        return ('v', tuple(cur.shape), tuple(cur.strides), cur.tolist())
+    return ('s', int(cur))
+
+
+def model_chain(ctx, r, jobs):
+    """jobs: list of (dims, subs).  Applies the Lean `ct` op stage by stage; returns one synthetic driver line per job."""
+    state = [{"dims": d, "off": 0, "final": None} for d, _ in jobs]
+    nstage = max((len(s) for _, s in jobs), default=0)
+    for st in range(nstage):
+        idx = [j for j, (d, subs) in enumerate(jobs) if state[j]["final"] is None and st < len(subs)]
+        lines = [r.ct_line(state[j]["dims"], jobs[j][1][st]) for j in idx]
+        outs = ctx.drv.batch(lines) if lines else []
+        for j, out in zip(idx, outs):
+            parts = out.split(" ")
+            last = st == len(jobs[j][1]) - 1
+            if parts[0] != "ok":
+                state[j]["final"] = out
+            elif parts[1] == "scalar":
+                p = json.loads(parts[2])
+                state[j]["final"] = "ok scalar [%d]" % (state[j]["off"] + p[0]) if last else "err TypeError"
+            elif parts[1] == "view":
+                shape, strides, subsf, data = (json.loads(x) for x in parts[2:6])
+                state[j]["off"] += data[0]
+                state[j]["dims"] = (shape, strides)
+                if last:
+                    state[j]["final"] = "ok view %s %s %s [%d]" % (parts[2], parts[3], parts[4], state[j]["off"])
+            else:
+                state[j]["final"] = out
+    return [s["final"] for s in state]
+
+
+def run_chain_modules(ctx, r, chain_mods, chain_built, chain_specs, only_specs):
+    for k, (fns, so) in enumerate(zip(chain_mods, chain_built)):
+        if isinstance(so, cybuild.BuildError):
+            # a chained expression that does not compile: find it (each function on its own) so that the input is concrete
+            bad = None
+            for f in fns:
+                try:
+                    cybuild.build_module(ctx, "c16chx", CT_HEAD + "\n" + chain_function(f["name"], f["ty"], f["subs"]))
+                except cybuild.BuildError as e:
+                    bad = (f, e)
+                    break
+            if bad:
+                f, e = bad
+                ctx.violation("ct-chain-compile", "def %s(%s a): return a%s does not compile: %s" % (
+                    f["name"], f["ty"], "".join("[%s]" % pyx_expr(x) for x in f["subs"]), e.log.strip().split("\n")[-1][:160]),
+                    {"path": "chain", "spec": [[3] * f["nd"], ""], "subs": [[list(i) for i in x] for x in f["subs"]],
+                     "meta": {"fn": f["name"], "ty": f["ty"], "source": chain_function(f["name"], f["ty"], f["subs"])}})
+            ctx.tie_break("D-c build of chained-subscript module %d" % k, so.stage + ": " + so.log[-800:], {"module": chain_specs[k]["source"][-2000:]})
+            continue
+        run_chain_module(ctx, r, so, fns, ctx.n(3, 5), only_specs)
+
+
+def run_chain_module(ctx, r, so, fns, k, only_specs=None):
+    cases, metas = [], []
+    for fn in fns:
+        specs = only_specs if only_specs is not None else shapes_for(ctx, fn, k)
+        cases.append(("ct_batch", "(%r, %r, [%s])" % (fn["name"], VIEW_FN[fn["ty"]], ",".join(spec_src(s) for s in specs))))
+        metas.append(specs)
+    outs = cybuild.run_cases(ctx, so, cases, timeout_per_case=120)
+    jobs, prepared = [], []
+    for fn, specs, out in zip(fns, metas, outs):
+        res = decode_batch(out, 2 * len(specs))
+        for j, spec in enumerate(specs):
+            base, a, off0 = build(spec)
+            dims = view_dims(None if res is None else [res[2 * j]], a)
+            impl = res[2 * j + 1] if res is not None else ('crash', out)
+            prepared.append((fn, spec, base, a, off0, impl, dims))
+            jobs.append((dims, fn["subs"]))
+    mlines = model_chain(ctx, r, jobs)
+    for (fn, spec, base, a, off0, impl, dims), mline in zip(prepared, mlines):
+        judge_chain(ctx, r, fn, spec, base, a, off0, impl, dims, mline)
+
+
+def judge_chain(ctx, r, fn, spec, base, a, off0, impl, dims, mline):
+    subs = fn["subs"]
+    cls = chain_classes(r.variant, tuple(a.shape), subs)
+    model = model_outcome(mline, base, a, off0, dims)
+    oracle = numpy_chain(a, subs)
+    no_oracle = cls in ("ct-multiple-ellipsis",)
+    expr = "a" + "".join("[%s]" % (pyx_expr(x) if x else ":") for x in subs)
+    ctx.count("chain/%dd/%s" % (a.ndim, cls or (oracle[0] if oracle[0] != 'err' else 'err-' + oracle[1])))
+    nontrivial = oracle[0] != 'err' and (oracle[0] == 's' or all(n > 0 for n in oracle[1]))
+    ctx.seen(('chain', spec, fn["ty"], tuple(tuple(x) for x in subs)), nontrivial=nontrivial)
+    what = "chain %s(%s a): %s  shape=%s strides=%s" % (fn["name"], fn["ty"], expr, tuple(a.shape), tuple(a.strides))
+    replay = {"path": "chain", "spec": [list(spec[0]), spec[1]], "subs": [[list(i) for i in x] for x in subs],
+              "meta": {"fn": fn["name"], "ty": fn["ty"], "source": chain_function(fn["name"], fn["ty"], subs)},
+              "impl": repr(impl), "model": mline, "oracle": repr(oracle), "variant": r.variant}
+    ok_oracle = no_oracle or same(impl, oracle, oracle_numpy=True)
+    ok_model = model[0] == 'ub' or same_model(model, impl)
+    merge_known = cls == "ct-chain-merge-later-newaxis-or-ellipsis"
+    if not ok_oracle:
+        # the model is the SEMANTICS (sequential application): for the known merge defect it never agrees with the implementation
+        key = cls if (cls and (ok_model or merge_known)) else ((cls + ":unmodelled") if cls else "ct-chain")
+        ctx.violation(key, what + ": got %s, NumPy (subscripts applied one after the other) %s" % (short(impl), short(oracle)), replay)
+        r.nviol += 1
+    if not ok_model and not (merge_known and not ok_oracle):
+        ctx.tie_break("D-c chained subscripts vs CyVerif.C16 ct applied sequentially (%s)" % r.variant,
+                      what + ": model %s impl %s" % (short(model), short(impl)), replay)
